@@ -95,6 +95,10 @@ impl<'a> IntoIterator for &'a Directory {
     }
 }
 
+fn invalid_data(msg: &'static str) -> std::io::Error {
+    std::io::Error::new(std::io::ErrorKind::InvalidData, msg)
+}
+
 /// Upper bound for the number of entries that are pre-allocated based on the entry count
 /// found in the (untrusted) input.
 const MAX_PREALLOCATED_ENTRIES: usize = 16_384;
@@ -126,7 +130,9 @@ impl Directory {
         for _ in 0..num_entries {
             let tmp = read_varint([u64], [reader])?;
 
-            last_id += tmp;
+            last_id = last_id
+                .checked_add(tmp)
+                .ok_or_else(|| invalid_data("Tile id of a directory entry overflows."))?;
             entries.push(Entry {
                 tile_id: last_id,
                 length: 0,
@@ -158,8 +164,18 @@ impl Directory {
         for i in 0..num_entries {
             let val = read_varint([u64], [reader])?;
 
-            entries[i].offset = if i > 0 && val == 0 {
-                entries[i - 1].offset + u64::from(entries[i - 1].length)
+            entries[i].offset = if val == 0 {
+                // 0 means "directly after the previous entry", which the first entry does not have
+                if i == 0 {
+                    return Err(invalid_data(
+                        "Offset of the first directory entry must be given explicitly.",
+                    ));
+                }
+
+                entries[i - 1]
+                    .offset
+                    .checked_add(u64::from(entries[i - 1].length))
+                    .ok_or_else(|| invalid_data("Offset of a directory entry overflows."))?
             } else {
                 val - 1
             };
